@@ -186,12 +186,110 @@ func factsAt(b *ssa.BasicBlock) []fact {
 		if i := blockIf(p); i != nil {
 			for k := 0; k < 2; k++ {
 				if edgeDominates(p, k, b) {
-					out = append(out, normFact(fact{V: i.Cond, Pol: k == 0, If: i}))
+					f := normFact(fact{V: i.Cond, Pol: k == 0, If: i})
+					out = append(out, f)
+					out = append(out, phiImplied(f, 0)...)
 				}
 			}
 		}
 	}
 	return out
+}
+
+// phiImplied: what a fact on a merged boolean (`ok := a && b` ... `if ok`) implies: when all incoming edges but one
+// carry the opposite constant, the merge was reached over that one edge — its value has the fact's polarity and the
+// facts of that edge hold.
+func phiImplied(f fact, depth int) []fact {
+	phi, ok := f.V.(*ssa.Phi)
+	if !ok || depth > 3 {
+		return nil
+	}
+	if bt, isB := phi.Type().Underlying().(*types.Basic); !isB || bt.Kind() != types.Bool {
+		return nil
+	}
+	live := -1
+	for i, e := range phi.Edges {
+		if cb, isC := constBool(e); isC && cb != f.Pol {
+			continue
+		}
+		if live >= 0 {
+			return nil
+		}
+		live = i
+	}
+	if live < 0 {
+		return nil
+	}
+	var out []fact
+	pred := phi.Block().Preds[live]
+	if _, isC := constBool(phi.Edges[live]); !isC {
+		g := normFact(fact{V: phi.Edges[live], Pol: f.Pol, If: f.If})
+		out = append(out, g)
+		out = append(out, phiImplied(g, depth+1)...)
+	}
+	if i := blockIf(pred); i != nil && pred.Succs[0] != pred.Succs[1] {
+		for k := 0; k < 2; k++ {
+			if pred.Succs[k] == phi.Block() {
+				g := normFact(fact{V: i.Cond, Pol: k == 0, If: i})
+				out = append(out, g)
+				out = append(out, phiImplied(g, depth+1)...)
+			}
+		}
+	}
+	out = append(out, factsAt(pred)...)
+	return out
+}
+
+// boolUnder evaluates a boolean value under assumptions on named conditions: constants, assumed conditions, negation,
+// and a merged boolean whose every feasible incoming edge (one whose own facts do not contradict the assumptions)
+// evaluates to the same value.
+func boolUnder(v ssa.Value, as []assumption, depth int) (val, known bool) {
+	if depth > 3 {
+		return false, false
+	}
+	if cb, ok := constBool(v); ok {
+		return cb, true
+	}
+	if u, ok := v.(*ssa.UnOp); ok && u.Op == token.NOT {
+		x, k := boolUnder(u.X, as, depth+1)
+		return !x, k
+	}
+	for _, a := range as {
+		if a.pred != nil && a.truth == nil && a.cmp == nil && a.pred(v) {
+			return a.val, true
+		}
+	}
+	phi, ok := v.(*ssa.Phi)
+	if !ok {
+		return false, false
+	}
+	seen, res := false, false
+	for i, e := range phi.Edges {
+		pred := phi.Block().Preds[i]
+		fs := factsAt(pred)
+		if ifp := blockIf(pred); ifp != nil && pred.Succs[0] != pred.Succs[1] {
+			for k := 0; k < 2; k++ {
+				if pred.Succs[k] == phi.Block() {
+					fs = append(fs, normFact(fact{V: ifp.Cond, Pol: k == 0, If: ifp}))
+				}
+			}
+		}
+		dead := false
+		for _, f := range fs {
+			if x, k := boolUnder(f.V, as, depth+1); k && x != f.Pol {
+				dead = true
+			}
+		}
+		if dead {
+			continue
+		}
+		x, k := boolUnder(e, as, depth+1)
+		if !k || (seen && x != res) {
+			return false, false
+		}
+		seen, res = true, x
+	}
+	return res, seen
 }
 
 func normFact(f fact) fact {
